@@ -71,7 +71,7 @@ func init() {
 		Cases: func(tier string) int {
 			inputs := 3
 			if tier == "thorough" {
-				inputs = 12
+				inputs = 40
 			}
 			return c19Entries * inputs * 2 // x2: in-process and binary
 		},
